@@ -195,6 +195,13 @@ func (w *world) refusedSig(o ropt, noCompliantPath bool) string {
 	case !o.now.IsZero() && o.c.RejectExpired && lm.notAfter.Equal(o.now):
 		return "refused-as-expired-at-notafter"
 	}
+	// a CA's own self-signed certificate directly followed by another certificate of the same CA
+	for i := 0; i+1 < len(w.chain); i++ {
+		a, b := w.metas[w.chain[i].c], w.metas[w.chain[i+1].c]
+		if a.node >= 0 && a.variant < 0 && b.node == a.node {
+			return "refused-valid-chain-old-self-signed-before-cross"
+		}
+	}
 	// a valid chain that carries something the log must ignore: name the first such feature
 	if fs := w.ignoredFeatures(); len(fs) > 0 {
 		return "refused-valid-chain-" + strings.TrimPrefix(fs[0], "ignored:")
